@@ -8,28 +8,36 @@ import flight, vlib
 
 def cases_for(ctx):
     ids = flight.parrots(ctx)
-    rep = [("Chrome-133", []), ("Chrome-133", ["ccert", "alps", "sku"]), ("Chrome-133", ["hrr"]),
-           ("Firefox-120", ["sku"]), ("Firefox-120", ["v12"]), ("Chrome-100_PSK", ["psk"]), ("Chrome-58", ["v12"])]
+    nalg = flight.compalgs(ctx)   # certificate compression algorithms each parrot advertises
+    # (parrot, flags, first server message that is mutated)
+    rep = [("Chrome-133", [], 1), ("Chrome-133", ["ccert", "alps", "sku"], 1), ("Chrome-133", ["hrr"], 1),
+           ("Firefox-120", ["sku"], 1), ("Firefox-120", ["v12"], 1), ("Chrome-100_PSK", ["psk"], 1), ("Chrome-58", ["v12"], 1),
+           ("iOS-14", ["ccert"], 3)]     # zlib; SH and EE of this parrot add nothing new: start at the (compressed) certificate
     if ctx.quick:
         rnd = random.Random(ctx.seed)
-        extra = rnd.choice([i for i in ids if i not in {p for p, f in rep}])
-        rep.append((extra, rnd.choice([[], ["hrr"], ["v12"], ["ccert", "alps"]])))
+        extra = rnd.choice([i for i in ids if i not in {p for p, f, k in rep}])
+        rep.append((extra, rnd.choice([[], ["hrr"], ["v12"], ["ccert", "alps"]]), 1))
         sel = rep
     else:
         sel = list(rep)
+        have = {(p, tuple(f)) for p, f, k in sel}
         for i in ids:
             for fl in ([], ["hrr", "sku"], ["v12"], ["ccert", "alps", "creq"]):
-                if (i, fl) not in sel:
-                    sel.append((i, fl))
+                if (i, tuple(fl)) not in have:
+                    sel.append((i, fl, 1))
+            # every further algorithm the parrot advertises: the compressed certificate (and what follows) once more
+            for a in range(1, min(3, nalg.get(i, 0))):
+                sel.append((i, ["ccert", "calg%d" % a], 3))
             if "PSK" in i:
-                sel.append((i, ["psk"]))
-    return [{"name": "%s[%s]" % (p, "+".join(f)), "parrot": p, "flags": f} for p, f in sel]
+                sel.append((i, ["psk"], 1))
+    return [{"name": "%s[%s]" % (p, "+".join(f)), "parrot": p, "flags": f, "from": k} for p, f, k in sel]
 
 
 def run(ctx):
     cov = flight.run_connection_family(ctx, "C33", "s", cases_for(ctx), deadline_ms=700)
     return "exploration", cov, [
         "only STRUCTURED hostile input is explored: one grammar-node mutation or one inserted message per connection, derived from captured real flights; arbitrary byte strings, raw record streams and coverage-guided fuzzing are not covered by this technique family",
+        "for a CompressedCertificate the operators are applied both to the container and to the Certificate message inside it; the latter is then compressed correctly (declared length = real length) by the harness's server role with an algorithm the parrot advertises (thorough: each of them)",
         "mutations are applied to the plaintext handshake message inside the hooked in-package server (verifOutgoing), so the server transcript and record protection stay consistent; the record layer itself is not mutated",
         "the message layout of a case is the same in every connection (fixed PKI, RSA leaf); TLC checks this on two captures and on every live message it judges",
         "deadline verdicts: transport deadline %d ms, tolerance 1000 ms (TLA+ SlackMs), watchdog 3 s later; a row that is late or hung in the parallel pass is executed again calmly and judged again, a timing rejection must reproduce in a fresh process; allocation verdicts: bytes allocated by the whole process during one serial connection vs the untouched flight + 1 MiB (TLA+ AllocSlackKB)" % cov["deadline_ms"],
